@@ -48,6 +48,7 @@ type caseT struct {
 	NoCfg   bool             `json:"no_config,omitempty"`
 	Req     string           `json:"requirer"` // "all", "none", or a path
 	U       []string         `json:"universe,omitempty"`
+	Unpack  string           `json:"unpacker_config,omitempty"` // "", "zero-is-default", "negative-is-default"
 }
 
 func styled(es []imgkit.Entry, style string) []imgkit.Entry {
@@ -612,8 +613,13 @@ func runCase(c *caseT, universe []string) (key, detail string) {
 	case "none":
 		cfg.Requirer = &require.FileRequirerNone{}
 		reqOnly = func(string) bool { return false }
+	case "empty-path-list":
+		// the library's path requirer built from an empty list requires nothing
+		cfg.Requirer = require.NewFileRequirerPaths(nil)
+		reqOnly = func(string) bool { return false }
 	default:
-		cfg.Requirer = reqPaths{map[string]bool{c.Req: true}}
+		// the library's own path requirer (it is part of what the property's last clause is about)
+		cfg.Requirer = require.NewFileRequirerPaths([]string{c.Req})
 		reqOnly = func(p string) bool { return p == c.Req } // refined per model in check()
 	}
 	var img *image.Image
@@ -753,7 +759,14 @@ func squashCheck(c *caseT, base string) (key, detail string) {
 	}
 	os.Mkdir(filepath.Join(dir, "out"), 0o755)
 	dir = filepath.Join(dir, "out")
-	u, _ := unpack.NewUnpacker(unpack.DefaultUnpackerConfig())
+	ucfg := unpack.DefaultUnpackerConfig()
+	switch c.Unpack {
+	case "zero-is-default":
+		ucfg.MaxPass, ucfg.MaxFileBytes = 0, 0 // documented: 0 or less means unset, the default applies
+	case "negative-is-default":
+		ucfg.MaxPass, ucfg.MaxFileBytes = -1, -1
+	}
+	u, _ := unpack.NewUnpacker(ucfg)
 	if err := u.UnpackSquashed(dir, rimg); err != nil {
 		return "squash-error", err.Error()
 	}
@@ -941,7 +954,7 @@ func main() {
 				report(&caseT{Layers: [][]imgkit.Entry{l0, l1}, Style: "plain", History: h, Req: "all"})
 			}
 			report(&caseT{Layers: [][]imgkit.Entry{l0, l1}, Style: "plain", NoCfg: true, Req: "all"})
-			for _, rq := range append([]string{"none"}, universe...) {
+			for _, rq := range append([]string{"none", "empty-path-list"}, universe...) {
 				report(&caseT{Layers: [][]imgkit.Entry{l0, l1}, Style: "plain", Req: rq})
 			}
 		}
@@ -970,6 +983,21 @@ func main() {
 			r.Violation(k, fmt.Sprintf("layers %s: %s", layerStr(c.Layers), d), c)
 		}
 	})
+	// the unpacker's documented defaults: a limit of 0 or less is "unset", not "none at all"
+	for _, one := range single {
+		for _, uc := range []string{"zero-is-default", "negative-is-default"} {
+			c := &caseT{Layers: [][]imgkit.Entry{one, {imgkit.File("zz", "1")}}, Style: "plain", Req: "all", Unpack: uc}
+			if !anchored(c.Layers) {
+				continue
+			}
+			k, d := squashCheck(c, base)
+			r.Evals.Add(1)
+			r.Nontrivial.Add(1)
+			if k != "" {
+				r.Violation(k, fmt.Sprintf("layers %s unpacker config %s: %s", layerStr(c.Layers), uc, d), c)
+			}
+		}
+	}
 	// Deep pruning: a non-required file (or a whiteout) four levels down whose removal empties
 	// several nested directories; the restricted final view must keep every directory.
 	deepU := []string{"u", "u/s", "u/s/d", "u/s/d/p", "u/s/d/p/f", "u/keep", "k"}
@@ -1062,5 +1090,5 @@ func main() {
 	}
 	os.RemoveAll(base)
 	r.Assume("imgkit.Model.Apply (~60 lines) is the OCI image-spec change-set application: whiteouts act on lower layers only, then the layer's entries are added")
-	r.Finish(fmt.Sprintf("universe %v; entry kinds: file(2 contents/modes), dir, whiteout, opaque marker per path + 4 symlinks (%d options); layers = all well-formed sets of <=%d entries (%d); all 1- and 2-layer images, every entry order per layer (plain names), canonical order with './' and '/' name styles; for images where an upper layer touches a lower one: 5 history arrangements incl. empty layers at every position and a short history, missing config, requirer none/each path; deep-pruning family (file 4 levels down x requirers); prefix-sibling family (names a, a/x, ab, ab/x, a.b, a.wh.b, hw, .w; lower layer <=2 (thorough 3) entries x upper layer 1 (thorough <=2) entry, + a third layer on top); squashed on-disk unpack AND a FromTarball load of the saved tarball for all pairs of single-entry layers; thorough adds all 3-layer images (<=%d,<=%d,1). Each view: Stat/Open+Read (plus: a second handle opened while the first is part-way through, ReadAt at every offset, Seek from the end) on every universe path + 2 absent paths, ReadDir of every directory, WalkDir. non-trivial = an upper-layer entry overlaps a lower-layer entry", universe, len(opts), maxEntries, len(sets), maxEntries, maxEntries), complete)
+	r.Finish(fmt.Sprintf("universe %v; entry kinds: file(2 contents/modes), dir, whiteout, opaque marker per path + 4 symlinks (%d options); layers = all well-formed sets of <=%d entries (%d); all 1- and 2-layer images, every entry order per layer (plain names), canonical order with './' and '/' name styles; for images where an upper layer touches a lower one: 5 history arrangements incl. empty layers at every position and a short history, missing config, requirer none / empty path list / each path (the library's path requirer); deep-pruning family (file 4 levels down x requirers); prefix-sibling family (names a, a/x, ab, ab/x, a.b, a.wh.b, hw, .w; lower layer <=2 (thorough 3) entries x upper layer 1 (thorough <=2) entry, + a third layer on top); squashed on-disk unpack AND a FromTarball load of the saved tarball for all pairs of single-entry layers (and every single-entry layer with the unpacker's limits set to 0 and to -1, both documented as 'unset'); thorough adds all 3-layer images (<=%d,<=%d,1). Each view: Stat/Open+Read (plus: a second handle opened while the first is part-way through, ReadAt at every offset, Seek from the end) on every universe path + 2 absent paths, ReadDir of every directory, WalkDir. non-trivial = an upper-layer entry overlaps a lower-layer entry", universe, len(opts), maxEntries, len(sets), maxEntries, maxEntries), complete)
 }
